@@ -10,6 +10,15 @@ CLAIMED = {
  'C16': ('proof', 'deductive VCs from the real AST (pyvc) for every energy / determinant constructor, preconditions = GROUND facts of the shipped propka.cfg, ghost lemmas (Lagrange identity via ring normalisation)',
          'Sign and bound postconditions (incl. frame: already listed determinants untouched) proved per constructor for all real inputs; cfg facts by exhaustive evaluation.',
          'A-REAL; callee contracts used at call sites are proved in the same run; loop rule for the desolvation sum'),
+ 'C10': ('proof', 'deductive VCs from the real AST (pyvc): extraction of the folding-energy expression, fold rule, optimum/range posts, make_grid count/step obligations, window filter under a real-arithmetic model of Decimal/round; Lean 4 + Mathlib for the derivative lemma',
+         'd(dG)/dpH = 1.36 (Q_folded - Q_unfolded) decomposed into a z3-proved extraction VC, a z3-proved charge identity and a Lean-checked calculus lemma; grid and window posts proved over the reals, float behaviour of make_grid by an exhaustive lattice monitor.',
+         'A-REAL (Decimal and round modelled over the reals), window start/step from a finite list, Lean kernel/Mathlib, range() semantics'),
+ 'C11': ('proof', 'deductive VCs from the real AST (pyvc): criterion spec of check_distance per element pair, whole box search on two atoms at arbitrary real coordinates (symbolic cell indices via ToInt, symbolic dict keys), cell lemma, ground check of the offset list in the AST',
+         'bonds found <=> pairwise criterion proved for any placement of a pair relative to the cell grid, any sign, both orders, with prior bonds; bridge flags; Group.setup/calculate_total_pka for bridged CYS.',
+         'A-REAL (floor over reals); pair-independence for n > 2 atoms argued from the coverage obligations, backed by a bounded monitor on random clouds'),
+ 'C18': ('other', 'deductive VCs from the real AST (pyvc) for the matrix invariants and the squared_property descriptor + exhaustive GROUND evaluation of the shipped propka.cfg through the real parser',
+         'Invariant step of PairwiseMatrix.add from every pre-state over a 3-name universe, InteractionMatrix.add for 0-4 rows, descriptor consistency under interleaved assignments: proved. Shipped-file completeness: 3 genuine gaps recorded as known findings (so not "proof").',
+         'parse_line dispatch not symbolically executed (bounded monitor on generated files); universe/row-count bounds stated in the evidence'),
  'C19': ('proof', 'deductive VCs from the real AST (pyvc), strings as symbolic code-point vectors, character-level model of int()/strip(), z3 LIA; frame census for Atom.numb',
          'Complete functional specification of decode on all printable strings up to width 5 (8 padded), round trip through the reference encoder for every segment of every width, monotonicity; serial-number independence by frame census + bounded pipeline monitor.',
          'A-ASCII; CPython int()/strip() model (cross-checked exhaustively for widths <= 3 on every run); fields wider than 5 not covered'),
